@@ -8,6 +8,7 @@ import FendModel.Model.Inline
 import FendModel.Model.StrLit
 import FendModel.Model.Date
 import FendModel.Model.IntFns
+import FendModel.Model.SerializeCanon
 
 open Fend Fend.Proto
 
@@ -193,6 +194,35 @@ def intfnLine (line : String) : String :=
     | none => "bad-op"
   | _ => "bad-op"
 
+/-- packed hex (two digits per byte, no separators) -/
+def parsePackedHex (s : String) : Option (List Nat) :=
+  let cs := s.trimAscii.toString.toList
+  let rec go : List Char → List Nat → Option (List Nat)
+    | [], acc => some acc.reverse
+    | [_], _ => none
+    | a :: b :: rest, acc =>
+      match Fend.Json.hexVal a.toNat, Fend.Json.hexVal b.toNat with
+      | some x, some y => go rest ((x * 16 + y) :: acc)
+      | _, _ => none
+  go cs []
+
+def packedHex (l : List Nat) : String :=
+  String.ofList (l.flatMap fun b => [(Nat.toDigits 16 (b / 16)).head!, (Nat.toDigits 16 (b % 16)).head!])
+
+/-- `serde <image>`: parse a variable image with the model; answer the error class, or whether
+re-serializing reproduces the image and the canonical (order-independent) re-serialization -/
+def serdeLine (line : String) : String :=
+  match parsePackedHex line with
+  | none => "bad-op"
+  | some bytes =>
+    match Fend.Ser.deVars bytes with
+    | .error .eof => "err eof"
+    | .error .bad => "err bad"
+    | .ok vars =>
+      let re := Fend.Ser.serVars vars
+      let same := re == bytes.take re.length
+      s!"ok {vars.length} {if same then 1 else 0} {packedHex (Fend.Ser.serVars (Fend.Ser.canonVars vars))}"
+
 partial def loop (h : IO.FS.Stream) (out : IO.FS.Stream) (f : String → String) : IO Unit := do
   let line ← h.getLine
   if line.isEmpty then return ()
@@ -211,4 +241,5 @@ def main (args : List String) : IO UInt32 := do
   | ["strlit"] => loop stdin stdout strlitLine; return 0
   | ["date"] => loop stdin stdout dateLine; return 0
   | ["intfn"] => loop stdin stdout intfnLine; return 0
+  | ["serde"] => loop stdin stdout serdeLine; return 0
   | _ => IO.eprintln "usage: fend_model_driver <stream>"; return 2
